@@ -195,14 +195,16 @@ func Run(r *core.Run) {
 
 	// ------------------------------------------------------------- A. request builders
 	// (the second key is a BBS+ key the way key libraries write it as a JWK: kty EC, a curve name of its own, x only)
-	opaque := `{"publicKey":[` + ops.PubKeyJSON("k1", keys.New("P-256", 600), `["authentication"]`) + `,{"id":"bls1","type":"Bls12381G2Key2020","purposes":["assertionMethod"],"publicKeyJwk":{"kty":"EC","crv":"BLS12381_G2","x":"` + strings.Repeat("QUJD", 32) + `"}}],"service":[{"id":"s1","type":"T","serviceEndpoint":"https://s1.example/","priority":1,"routingKeys":["rk1","rk2"],"description":"as created"}],"alsoKnownAs":["https://aka.example/"],"other":{"n":1},"list":[1,2]}`
+	// (ids of exactly the longest length the rules allow, 50 characters, stand beside the short ones)
+	id50k, id50s := "k"+strings.Repeat("0123456789", 5)[:49], "s"+strings.Repeat("abcdefghi_", 5)[:49]
+	opaque := `{"publicKey":[` + ops.PubKeyJSON("k1", keys.New("P-256", 600), `["authentication"]`) + `,` + ops.PubKeyJSON(id50k, keys.New("P-256", 602), `["authentication"]`) + `,{"id":"bls1","type":"Bls12381G2Key2020","purposes":["assertionMethod"],"publicKeyJwk":{"kty":"EC","crv":"BLS12381_G2","x":"` + strings.Repeat("QUJD", 32) + `"}}],"service":[{"id":"s1","type":"T","serviceEndpoint":"https://s1.example/","priority":1,"routingKeys":["rk1","rk2"],"description":"as created"},{"id":"` + id50s + `","type":"T","serviceEndpoint":"https://longest-id.example/"}],"alsoKnownAs":["https://aka.example/"],"other":{"n":1},"list":[1,2]}`
 	patchTexts := map[string]string{
 		"replace": `{"action":"replace","document":{"publicKeys":[` + ops.PubKeyJSON("k2", keys.New("Ed25519", 600), `["assertionMethod"]`) + `],"services":[{"id":"s2","type":"T","serviceEndpoint":"https://s2.example/"}]}}`,
 		// (the add patches also name an id that the created document has: the stored entry is replaced by the new one, whole)
-		"add-public-keys":      `{"action":"add-public-keys","publicKeys":[` + ops.PubKeyJSON("k3", keys.New("secp256k1", 600), `["keyAgreement"]`) + `,` + ops.PubKeyJSON("k1", keys.New("Ed25519", 601), ``) + `]}`,
-		"remove-public-keys":   `{"action":"remove-public-keys","ids":["k1","zz"]}`,
-		"add-services":         `{"action":"add-services","services":[{"id":"s3","type":"T","serviceEndpoint":["https://a.example/","https://b.example/"]},{"id":"s1","type":"T2","serviceEndpoint":"https://s1-again.example/"}]}`,
-		"remove-services":      `{"action":"remove-services","ids":["s1"]}`,
+		"add-public-keys":      `{"action":"add-public-keys","publicKeys":[` + ops.PubKeyJSON("k3", keys.New("secp256k1", 600), `["keyAgreement"]`) + `,` + ops.PubKeyJSON(id50k[:49]+"X", keys.New("P-256", 603), `["authentication"]`) + `,` + ops.PubKeyJSON("k1", keys.New("Ed25519", 601), ``) + `]}`,
+		"remove-public-keys":   `{"action":"remove-public-keys","ids":["k1","zz","` + id50k + `"]}`,
+		"add-services":         `{"action":"add-services","services":[{"id":"s3","type":"T","serviceEndpoint":["https://a.example/","https://b.example/"]},{"id":"` + id50s[:49] + `X","type":"T","serviceEndpoint":"https://another-longest-id.example/"},{"id":"s1","type":"T2","serviceEndpoint":"https://s1-again.example/"}]}`,
+		"remove-services":      `{"action":"remove-services","ids":["s1","` + id50s + `"]}`,
 		"ietf-json-patch":      `{"action":"ietf-json-patch","patches":[{"op":"add","path":"/extra","value":{"e":true}}]}`,
 		"add-also-known-as":    `{"action":"add-also-known-as","uris":["did:example:also"]}`,
 		"remove-also-known-as": `{"action":"remove-also-known-as","uris":["https://aka.example/"]}`,
